@@ -210,6 +210,18 @@ CLAIMS = {
              "vertex whose edges all leave within a half-plane gives a self-crossing drawing; fix D12 (nothing to replace raised ValueError) recorded in known_findings.json. "
              "make_dual's documented 'too small' exception is the precondition failing.",
         ref="§7 C13"),
+    "C20": dict(
+        technique="Lean 4 proof (exact simplex arithmetic for every number of samples; reassembly of a chunked map for every chunking and arrival order) + exact sampling correspondence",
+        text="Kernel-checked: for every samples ≥ 2 every grid point of both schemes gives non-negative numerators summing to the denominator (a valid coupling triple), the plain "
+             "scheme's filter removes nothing (exactly samples² points), the symmetric scheme keeps the points with x ≤ y ≤ z up to half a grid spacing, the appended centre is a valid "
+             "triple; for every function, every cutting of the points into consecutive chunks and every permutation in which the workers' (chunk index, values) results arrive, sorting "
+             "by chunk index and concatenating returns exactly map f points in order (hence any two schedules agree). The exact sampling model (integers over 2(samples−1)) is compared "
+             "with both schemes for samples 2..40 (exact-tie filter decisions excluded by an exact test); simplex membership, one triangulation node per point (six congruent images), "
+             "and compute_phase_diagram for n_jobs 1..16 with index-dependent sleeps, scalar/vector valued, with/without shared arguments, against the serial evaluation are "
+             "evaluated on the implementation.",
+        note="Trusted: Lean kernel/Mathlib/standard axioms; harness; mpire's pool, its chunking and result ordering, and the OS scheduler are sampled, not proved (the theorem is about "
+             "the abstract reassembly); matplotlib Triangulation. Non-strict sum check: |x+y+z−1| ≤ 4e-16.",
+        ref="§7 C20"),
 }
 
 PENDING_REASON = "check not built yet in this revision (work in progress; see DESIGN.md §7 for the planned Lean model and tie)"
